@@ -399,6 +399,10 @@ class SqlImpl(TableImpl):
                 col._uuid for col in query.partition_by if col._uuid not in needed_cols
             ]
 
+            # the names the columns have in the pipeline (two columns, one of them hidden, may
+            # share a name; inside the subquery they need distinct labels)
+            pipeline_name = {uid: sqa_expr[uid].name for uid in subquery_cols if uid in sqa_expr}
+
             # resolve potential column name collisions in the subquery
             for uid in subquery_cols:
                 if uid in sqa_expr:
@@ -413,8 +417,9 @@ class SqlImpl(TableImpl):
                     query.select.append(uid)
 
             table = cls.compile_query(table, query, sqa_expr).subquery()
+            # outside the subquery the columns carry their pipeline names again
             sqa_expr = {
-                uid: sqa.label(name_in_subquery[uid], table.columns.get(name_in_subquery[uid]))
+                uid: sqa.label(pipeline_name[uid], table.columns.get(name_in_subquery[uid]))
                 for uid in subquery_cols
                 if uid in sqa_expr
             }
